@@ -86,6 +86,8 @@ def run(tier, seed):
                  "or its bytes runs afterwards. Claimed in part: collapse_path's own in-place state machine quantifies over string "
                  "contents and is NOT decided here - a change confined to its body is not detected.")
     with Context(tier) as ctx:
+        from .. import selfcheck
+        selfcheck.run(ctx, rep, ['taint', 'facts'])
         mod = ctx.plain()
         cg = CallGraph(mod)
         rep.analysed = {"view": "plain", "functions": len(mod.defined())}
